@@ -23,7 +23,7 @@ def owner_of(f: Finding, default: str) -> str:
         return default        # dedicated scenario sets: every functional discrepancy there belongs to that property
     if f.kind == 'mismatch':
         w = f.what
-        if 'quiescence: tree' in w or 'black height' in w or 'red node' in w or 'red root' in w or 'traversal list' in w or 'bin is a tree' in w or 'is a tree but the table' in w:
+        if 'tree lookup cost' in w or 'quiescence: tree' in w or 'black height' in w or 'red node' in w or 'red root' in w or 'traversal list' in w or 'bin is a tree' in w or 'is a tree but the table' in w:
             return 'C06'
         if 'quiescence:' in w or 'table length went' in w or 'table shrank' in w:
             if 'size_ctl' in w or 'next_table' in w or 'table length' in w or 'shrank' in w:
@@ -55,7 +55,7 @@ ALPHA_CORE = ['insert', 'try_insert', 'get_key_value', 'remove_entry', 'compute_
 
 
 def op_with_key(name: str, keyvar: int):
-    if name in ('retain', 'retain_force', 'retain_replace', 'retain_force_replace', 'clear', 'len'):
+    if name in ('retain', 'retain_force', 'retain_replace', 'retain_force_replace', 'retain_replace_grow', 'retain_force_replace_grow', 'clear', 'len'):
         return (name,)
     return (name, keyvar)
 
@@ -142,6 +142,7 @@ def scenarios_for(prop: str, tier: str, seed: int = 0) -> List[Scenario]:
             add('mixed/tree/cap40/%d' % i, hasher='mixed', capacity=40, prefill=[0, 5, 10, 15, 1, 6, 11, 12, 2, 7, 13, 3], ops=ops, universe=16)
         # a tree bin whose entries ALL carry the new-table bit (moves as a whole to bin i+n; the old TreeBin is reused) / none does
         add('split/tree/all-high', hasher='split', capacity=40, prefill=[1, 3, 5, 7, 9, 11, 13, 15, 17, 19], ops=[('reserve', ('c', 100)), ('get', 0), ('remove', 1)], universe=20)
+        add('twohash/tree/split', hasher='twohash', capacity=40, prefill=list(range(12)), ops=[('reserve', ('c', 100)), ('get', 0), ('remove', ('c', 1)), ('get', ('c', 3)), ('insert', ('c', 1))], universe=13)
         add('split/tree/all-low', hasher='split', capacity=40, prefill=[0, 2, 4, 6, 8, 10, 12, 14, 16, 18], ops=[('reserve', ('c', 100)), ('get', 0), ('remove', 1)], universe=20)
         # tree bins split by a resize into two halves (keys collide in 64 bins, differ in bit 6)
         add('split/tree/split', hasher='split', capacity=40, prefill=list(range(12)), ops=[('reserve', ('c', 100)), ('get', 0), ('remove', 1)], universe=13)
@@ -170,6 +171,8 @@ def scenarios_for(prop: str, tier: str, seed: int = 0) -> List[Scenario]:
             # shrink to the untreeify threshold and below
             add('%s/tree9/shrink' % hasher, hasher=hasher, capacity=40, prefill=list(range(0, 18, 2)),
                 ops=[('remove', ('c', 0)), ('remove', ('c', 16)), ('remove', 0), ('remove', 1), ('insert', 2)], universe=17, check_each_step=True)
+        # a large bin (48 entries with one full hash): only here does O(log n) differ from O(n) by more than the constant in the bound
+        add('const/tree48/lookup-cost', hasher='const', capacity=40, prefill=list(range(48)), ops=[('remove', ('c', 0)), ('insert', ('c', 60)), ('remove', ('c', 31)), ('get', 0)], universe=61)
         # a tree bin split by a resize (64 -> 128 -> 256): both halves are rebuilt (tree or list)
         add('split/treesplit', hasher='split', capacity=40, prefill=list(range(14)), ops=[('reserve', ('c', 40)), ('insert', 0), ('remove', 1)], universe=15, check_each_step=thorough)
         add('split/treesplit2', hasher='split', capacity=40, prefill=[0, 2, 4, 6, 8, 10, 12, 14, 16, 18, 1], ops=[('reserve', ('c', 40)), ('get', 0)], universe=20, check_each_step=True)
@@ -182,6 +185,9 @@ def scenarios_for(prop: str, tier: str, seed: int = 0) -> List[Scenario]:
                 for kind in ('retain', 'retain_force', 'retain_replace', 'retain_force_replace'):
                     add('%s/cap%s/%s/%s' % (hasher, cap, facade, kind), hasher=hasher, capacity=cap, facade=facade,
                         ops=[('insert', 0), ('insert', 1), ('insert', 2), (kind,), ('get', 3)], universe=3 if hasher != 'symbolic' else 2)
+            for hasher in ('identity', 'const'):
+                for kind in ('retain_replace_grow', 'retain_force_replace_grow'):
+                    add('%s/cap1/%s/%s' % (hasher, facade, kind), hasher=hasher, capacity=1, facade=facade, ops=[('insert', 0), ('insert', 1), ('insert', 2), (kind,), ('get', 3)], universe=3)
             for hasher in ('samebin', 'const'):
                 for kind in ('retain', 'retain_force', 'retain_replace', 'retain_force_replace'):
                     add('%s/tree/%s/%s' % (hasher, facade, kind), hasher=hasher, capacity=40, facade=facade, prefill=list(range(10)), ops=[(kind,), ('get', 0)], universe=11,
@@ -255,7 +261,7 @@ def _work(sc: Scenario):
     try:
         r = Runner(_PROG, sc, max_paths=int(os.environ.get('VERIF_MAX_PATHS', '6000'))).run()
         return {'name': sc.name, 'paths': r.paths, 'steps': r.steps, 'queries': r.queries, 'covered': r.covered, 'findings': r.findings,
-                'modelled': r.modelled, 'executed': r.executed, 'stats': r.stats, 'cmp_max': r.cmp_max, 'samples': r.samples, 'time': time.time() - t0, 'error': None}
+                'modelled': r.modelled, 'executed': r.executed, 'stats': r.stats, 'cmp_max': r.cmp_max, 'cmp_absent_max': getattr(r, 'cmp_absent_max', 0), 'samples': r.samples, 'time': time.time() - t0, 'error': None}
     except C.Inconclusive as e:
         return {'name': sc.name, 'error': 'inconclusive: %s' % e, 'time': time.time() - t0}
     except Exception as e:   # Unsupported etc.
